@@ -100,7 +100,7 @@ def view(r):
 
 
 def tainted(r):
-    return isinstance(r.get("issue"), str) and "timeout" in r["issue"].lower()
+    return rowlib.tainted(r)
 
 
 def one_by_one(inputs):
@@ -278,6 +278,24 @@ def run_grouping(chosen, refs, perm, bs, nj, res, repeat=1):
                 tot[k] = tot.get(k, 0) + v
         if {k: tot.get(k) for k in KEYS} != {k: stats.get(k) for k in KEYS} and ntaint == 0:
             res.viol("stats_not_sum_of_batches", stats=stats, summed=tot, **w)
+    elif bs is not None and nj == 1 and ntaint == 0:
+        # no per-batch statistics from the tracer (the private per-batch method is not wrapped): additivity is
+        # decided at the client boundary instead - each batch of the same partition is run as its own call
+        tot = {}
+        ok = True
+        for i in range(0, len(inputs), bs):
+            _, st, e2 = pipeline.run(b, inputs[i:i + bs])
+            if e2:
+                ok = False
+                break
+            for k, v in st.items():
+                tot[k] = tot.get(k, 0) + v
+        if ok:
+            res.ev()
+            res.count("stats_additivity_evaluated")
+            res.count("stats_additivity_by_separate_calls")
+            if {k: tot.get(k) for k in KEYS} != {k: stats.get(k) for k in KEYS}:
+                res.viol("stats_not_sum_of_batches", stats=stats, summed=tot, **w)
     if ntaint == 0:
         # partition independence: derive what the counters must be from the stand-alone rows
         res.ev()
@@ -295,7 +313,7 @@ def run_grouping(chosen, refs, perm, bs, nj, res, repeat=1):
 
 def conclude_args(res, tier, seed):
     return {"need": {"rows_compared": 600, "history_rows_compared": 100, "groupings_run": 60, "stats_additivity_evaluated": 30,
-                     "set_members:mcs-based": 10, "set_members:rule-based": 10, "set_members:declined": 5},
+                     "set_members:mcs-based": 4, "set_members:rule-based": 5, "set_members:declined": 2},
             "min_cases": 500}
 
 
